@@ -672,7 +672,7 @@ fn gen_ratio_pair(r: &mut Rng, ty: Ty) -> [BigInt; 4] {
         }
         11 => {
             // consecutive integers beyond 2^53 (the old f64 comparison could not tell them apart)
-            let e0 = 53 + r.below(9) as u32;
+            let e0 = if ty == Ty::I32 { 22 + r.below(8) as u32 } else { 53 + r.below(9) as u32 };
             let k0 = BigInt::from(r.range(-2, 2));
             let p = sign(r, pow2(e0) + k0);
             let e = BigInt::from(r.range(-1, 1));
